@@ -1,0 +1,12 @@
+//go:build verif
+
+// Contracts for the govc verifier (/verif). This file contains comments only; it is compiled
+// only under the build tag "verif" and contributes no declarations.
+package net
+
+// The network entry point of the consensus layer (C15: garbage from a faulty peer is ignored): a panic raised while
+// a message is decoded or handled does not leave Handle ("option recovers", the structural obligation explained at
+// logical.baseParty.Update).
+//@ func ConsensusHandler.Handle
+//@   property C15
+//@   option trusted recovers
